@@ -1062,6 +1062,12 @@ func (ip *Interp) builtin(name string, args []Value, site ssa.CallInstruction) V
 			}
 			return Int(len(x.Q))
 		}
+		if o, isOpaque := args[0].(*Opaque); isOpaque {
+			return &Opaque{"len of " + o.Why} // an unknown number (a decision taken on it leaves the model there)
+		}
+		if tk, isTok := args[0].(*Tok); isTok && tk.Class == "bytes" {
+			return &Opaque{"len of " + tk.ID} // a byte slice standing for a rendered document
+		}
 		undecided("len of %s", Show(args[0]))
 	case "append":
 		base, ok := args[0].(*List)
@@ -1450,6 +1456,11 @@ func (ip *Interp) step(f *frame, v ssa.Value) Value {
 			panic(&GoPanic{Msg: "slice bounds out of range"})
 		}
 		_, fromList := base.(*List)
+		if al, isAl := x.X.(*ssa.Alloc); isAl && !fromList && al.Referrers() != nil && len(*al.Referrers()) == 1 && lo == 0 {
+			// make([]T, n, c) with constant bounds: an array nobody else can reach, cut to its length - the room
+			// behind it is the slice's own, appending into it shows nowhere else
+			return &List{Elems: append([]Value(nil), elems[:hi]...)}
+		}
 		out := &List{Elems: append([]Value(nil), elems[lo:hi]...), View: fromList && len(elems) > 0, Spare: hi < len(elems)}
 		if bl, isL := base.(*List); isL && out.View {
 			out.Base, out.Off = bl, lo
